@@ -37,21 +37,20 @@ class NStep(Case):
     functions = (MultiStepReplayBuffer.add, MultiStepReplayBuffer._get_n_step_info, ReplayBuffer.add, ReplayBuffer._init)
     stubs = ()
     assumptions = ("done flags are 0/1",)
-    outside = ("ring-buffer wrap-around (capacity is larger than the number of stored rows here; wrap-around is C09)",
-               "dict/tuple observations")
+    outside = ("dict/tuple observations",)
     site = "MultiStepReplayBuffer._get_n_step_info"
 
-    def __init__(self, n, E, extra=1, OD=1):
-        self.n, self.E, self.extra, self.OD = n, E, extra, OD
-        self.name = f"nstep-n{n}-E{E}-x{extra}"
-        self.bounds = {"n_step": n, "num_envs": E, "adds": n + extra, "obs_dim": OD,
+    def __init__(self, n, E, extra=1, OD=1, cap=None):
+        self.n, self.E, self.extra, self.OD, self.cap = n, E, extra, OD, cap
+        self.name = f"nstep-n{n}-E{E}-x{extra}" + (f"-cap{cap}" if cap else "")
+        self.bounds = {"n_step": n, "num_envs": E, "adds": n + extra, "obs_dim": OD, "capacity": cap or "no wrap-around",
                        "symbolic": "gamma, every reward, every done flag, obs/action/next_obs labels"}
 
     def run(self, v):
         n, E, OD = self.n, self.E, self.OD
         W = n + self.extra
         gamma = v.real("gamma")
-        cap = W * E + 3
+        cap = self.cap or (W * E + 3)
         nbuf = MultiStepReplayBuffer(cap, n_step=n, gamma=gamma)
         main = ReplayBuffer(cap)
         require(nbuf, "n_step_buffer", "_storage", "_cursor", "_size")
@@ -72,8 +71,9 @@ class NStep(Case):
                 main.add(one)
         obs = []
         nstored = W - n + 1
-        obs.append(Ob("length/n-step", len(nbuf) == nstored * E))
-        obs.append(Ob("length/1-step", len(main) == nstored * E))
+        total_rows = nstored * E
+        obs.append(Ob("length/n-step", len(nbuf) == min(cap, total_rows)))
+        obs.append(Ob("length/1-step", len(main) == min(cap, total_rows)))
         obs.append(Ob("returns-none-until-window-full", all(x is None for x in returned[: n - 1]) and all(x is not None for x in returned[n - 1:])))
         r = lambda t, e: val(raw[t]["reward"], e)
         d = lambda t, e: val(raw[t]["done"], e)
@@ -81,7 +81,10 @@ class NStep(Case):
         st, ms = nbuf.storage, main.storage
         for j in range(nstored):
             for e in range(E):
-                row = j * E + e
+                srow = j * E + e
+                if srow < total_rows - cap:
+                    continue            # overwritten by wrap-around: both buffers must have dropped it alike
+                row = srow % cap
                 tag = f"w{j}e{e}"
                 rew, nob, dn = nstep_oracle(n, E, j, e, gamma, r, d, no)
                 obs.append(Ob(f"{tag}/starts-from-observed-pair",
@@ -101,7 +104,7 @@ class NStep(Case):
 
 
 def cases(tier):
-    cs = [NStep(2, 1), NStep(3, 1), NStep(3, 2, extra=0), NStep(2, 2)]
+    cs = [NStep(2, 1), NStep(3, 1), NStep(3, 2, extra=0), NStep(2, 2), NStep(2, 2, extra=2, cap=3), NStep(2, 1, extra=3, cap=2)]
     if tier == "thorough":
-        cs += [NStep(4, 2), NStep(5, 1, extra=2), NStep(3, 3, extra=1), NStep(6, 1, extra=0)]
+        cs += [NStep(4, 2), NStep(5, 1, extra=2), NStep(3, 3, extra=1), NStep(6, 1, extra=0), NStep(3, 2, extra=3, cap=5), NStep(2, 3, extra=2, cap=4)]
     return cs
